@@ -26,7 +26,7 @@ var c20Alphabet = []string{"'", "\"", "\\", "\x01", "\x1f", "\x7f", "<", ">", "&
 func c20Families(tier fw.Tier) []docFamily {
 	return cachedFamilies("c20/"+string(tier), func() []docFamily {
 		var fs []docFamily
-		for _, f := range c01Families(tier) {
+		for _, f := range sharedFamilies(tier) {
 			switch f.name {
 			case "FA1", "FD1", "FB":
 				fs = append(fs, f)
